@@ -401,6 +401,11 @@ func cmdCheck(args []string) int {
 				okc = strings.Contains(out, "VP-PANIC") || strings.Contains(out, "VP-KILLED")
 			case "assert":
 				okc = strings.Contains(out, "VP-ASSERT-FAIL "+v.Site+"\n")
+				if strings.HasPrefix(v.Site, "monitor:") {
+					// observed by an engine monitor (no native counterpart): confirmed when the native
+					// run follows the same path to its end
+					okc = strings.Contains(out, "VP-DONE")
+				}
 			case "hang":
 				okc = strings.Contains(out, "VP-TIMEOUT")
 			case "depth":
